@@ -1345,6 +1345,16 @@ def run(ctx):
             if isinstance(st, ast.If) and any(isinstance(x, ast.Continue) for x in st.body):
                 filters.append((st.test, st.lineno))
     if not src_ok:
+        # another construction of the mapping (`dict(zip(map(key, names), map(z.read, names)))`): every member name goes in as long as the
+        # names are read from the archive and nothing filters them
+        reads_names = any(isinstance(n, ast.Call) and (dotted(n.func) or "").split(".")[-1] in ("namelist", "infolist") for n in ast.walk(blx))
+        for n in ast.walk(blx):
+            if isinstance(n, (ast.ListComp, ast.SetComp, ast.GeneratorExp, ast.DictComp)):
+                filters += [(t, n.lineno) for g_ in n.generators for t in g_.ifs]
+            if isinstance(n, ast.Call) and dotted(n.func) in ("filter", "itertools.filterfalse", "filterfalse", "itertools.compress", "compress") and n.args:
+                filters.append((n.args[0], n.lineno))
+        src_ok = reads_names
+    if not src_ok:
         ctx.error("_ZipPkgReader._blobs", "the table of members (a mapping built over namelist() / infolist()) is not recognised")
     else:
         bad = None
